@@ -24,7 +24,9 @@ import (
 	"k8s.io/apimachinery/pkg/runtime"
 	"k8s.io/apimachinery/pkg/runtime/schema"
 	"k8s.io/apimachinery/pkg/types"
+	"k8s.io/apimachinery/pkg/runtime/serializer"
 	clientgoscheme "k8s.io/client-go/kubernetes/scheme"
+	clienttesting "k8s.io/client-go/testing"
 	ctrl "sigs.k8s.io/controller-runtime"
 	"sigs.k8s.io/controller-runtime/pkg/client"
 	"sigs.k8s.io/controller-runtime/pkg/client/apiutil"
@@ -145,6 +147,8 @@ var c18Scheme = func() *runtime.Scheme {
 	return s
 }()
 
+var c18Decoder = serializer.NewCodecFactory(c18Scheme).UniversalDecoder()
+
 type c18Recorder struct{ events []string }
 
 func (r *c18Recorder) Event(_ runtime.Object, _, reason, message string) {
@@ -223,7 +227,9 @@ func c18NewRun(c *c18Case) (*c18Run, error) {
 	for i := range c.Pods {
 		objs = append(objs, c.podObject(&c.Pods[i]))
 	}
-	r.base = fake.NewClientBuilder().WithScheme(c18Scheme).WithObjects(objs...).
+	// plain object tracker: the default field-managed tracker rebuilds a REST mapper of the whole scheme on every write
+	r.base = fake.NewClientBuilder().WithScheme(c18Scheme).
+		WithObjectTracker(clienttesting.NewObjectTracker(c18Scheme, c18Decoder)).WithObjects(objs...).
 		WithStatusSubresource(&v2alpha2.PodGroup{}).Build()
 	for _, o := range c.Objects {
 		raw, err := json.Marshal(o)
@@ -887,7 +893,7 @@ func c18Record(c *c18Case, f c18Facts) {
 }
 
 func TestCheckPodGrouper(t *testing.T) {
-	kit.Run(t, kit.Budget{Quick: 6000, Thorough: 120000}, func(t *rapid.T) {
+	kit.Run(t, kit.Budget{Quick: 40000, Thorough: 800000}, func(t *rapid.T) {
 		c := c18GenCase(t)
 		c.Strict = os.Getenv("VERIF_C18_STRICT") != ""
 		sig, msg, f, trace := c18Judge(c)
